@@ -727,3 +727,48 @@ def c16(tier, seed):
     simple_validate("C16", v, scs, "all", "Trace_Flatten", sigfn=lambda sc, tup: {"fam": "flatten", "what": tup[3]}, timeout=3000)
     v.samples = [scs[0], scs[-1]]
     return v.finish()
+
+
+@prop("C07")
+def c07(tier, seed):
+    v = Verdicts("C07", tier, seed)
+    th = tier == "thorough"
+    v.rule = ("Gen_Boundary: for each of 11 call kinds (stroke, fill, fill_rect, clear, mask, draw_image_at, draw_image_with_size_at, "
+              "surface copies, push_clip, contains_point, flatten) every assignment of boundary values (NaN, +-Inf, +-Max, MinPos, -0, "
+              "zero, negative, huge, degenerate paths, 14 sources incl. degenerate gradients) to at most two parameter slots, after "
+              "NPRE prefixes of degenerate state (zero-sized target, singular transform, inverted/empty/far clips, layers with "
+              "out-of-range opacity); plus the canvas histories of the other families; each scenario runs in a child process under a "
+              "watchdog in a build with overflow checks and debug assertions; non-trivial = all calls in the stated domain")
+    v.trusted = ["harness catch_unwind/watchdog (harness/src/main.rs, boundary.rs)", "Domain.tla predicate for the property's provided-clause"]
+    g, scs = gen_scenarios("C07", "Gen_Boundary", env={"NPRE": 4 if th else 1, "SALT": seed}, timeout=1200)
+    v.add_tlc(g)
+    scs += known_scenarios("C07", "boundary")
+    v.exhaustive = True
+    tp = execute("C07", "boundary", scs, timeout_ms=4000)
+    t = validate("C07", "Trace_Boundary", tp, timeout=3000)
+    v.add_tlc(t)
+    v.evaluations += len(scs)
+    v.traces += len(scs)
+    recs = read_ndjson(tp)
+    for tup in t.tuples("NT"):
+        v.nontrivial.add(("b", tup[1]))
+    v.extra["out_of_domain_scenarios"] = len(t.tuples("OUT"))
+    for tup in t.tuples("BAD"):
+        sc = scs[tup[1] - 1]
+        det = tup[4] if len(tup) > 4 else None
+        msg = det[2] if isinstance(det, list) and len(det) > 2 else ""
+        op = det[1] if isinstance(det, list) and len(det) > 1 else "?"
+        mode = None
+        for c in sc["calls"]:
+            if c.get("op") == op and isinstance(c.get("opts"), dict):
+                mode = c["opts"].get("blend")
+        v.violation(sc, {"what": tup[3], "detail": det,
+                         "sig": {"fam": "boundary", "tag": "C07", "what": tup[3], "op": op, "nonsep_mode": mode in NONSEP,
+                                 "panic_class": "overflow" if "overflow" in msg else "premul_assert" if "<= a" in msg else "other"}})
+    # the canvas histories are also subject to the no-panic clause
+    scs2 = canvas_gen("C07", v, "frame", 2, 10 if th else 4, salt=seed + 7)
+    scs2 += canvas_gen("C07", v, "layer", 4, 3, draws=2, simulate=2000 if th else 300, depth=8, seed=seed, salt=seed + 7)
+    scs2 += known_scenarios("C07", "canvas")
+    canvas_validate("C07", v, scs2, "canvas", {"C07"})
+    v.samples = [scs[0], scs[len(scs) // 2], scs2[0]]
+    return v.finish()
